@@ -393,6 +393,10 @@ def piece_slice(p, delta, ln, F):
         _, var, lo, hi, el, t = p
         q = delta.div_sym(el)
         c = ln.div_sym(el)
+        if q is None or c is None:
+            delta, ln = F.canon(delta), F.canon(ln)
+            q = delta.div_sym(el)
+            c = ln.div_sym(el)
         if q is not None and c is not None:
             return _mkmap(var, lo + q, lo + q + c, el, t, F)
         q0, r0 = _divmod_lin(delta, el, F)
@@ -423,7 +427,7 @@ def piece_slice(p, delta, ln, F):
 
 def _divmod_lin(l, e, F):
     """try l = q*e + r with 0 <= r < e provable; returns (q, r) or (None, None)."""
-    l = lin(l)
+    l = F.canon(lin(l))
     e = lin(e)
     q = l.div_sym(e)
     if q is not None:
@@ -954,6 +958,13 @@ def bequal(a, b, F):
 
 def _bequal(a, b, F):
     try:
+        rw = {k: v for k, v in getattr(F, "rewrites", {}).items() if k != "__generated__"}
+        if rw:
+            # definitional equalities (len := k*bs + d ...): compare canonical forms
+            if bsyms(a) & set(rw):
+                a = bsubst(a, {}, rw, F)
+            if bsyms(b) & set(rw):
+                b = bsubst(b, {}, rw, F)
         a = bnorm(a, F)
         b = bnorm(b, F)
         if a == b:
